@@ -43,6 +43,10 @@ def cli_run(args, stdin_bytes=None, cwd=None, env=None, timeout=120):
                        capture_output=True, cwd=cwd, env=env, timeout=timeout)
     return p.returncode, p.stdout, p.stderr
 
+def crashed(rc, stderr):
+    """the process died (signal, Go panic) rather than ending with an exit status of its own choosing; recognised by what Go prints, not by the status value"""
+    return rc < 0 or b'panic:' in stderr or b'goroutine 1 [' in stderr or b'fatal error:' in stderr
+
 def gz_bytes(data, members=1):
     if members == 1:
         buf = io.BytesIO()
